@@ -31,6 +31,15 @@ def d2(func, *args, p2=2, **kwargs):
 def f(a, b=0, c=1, *args, **kwargs):
     return ('f', a, b, c, args, tuple(sorted(kwargs.items())))
 
+def f2(c, a=5, b=2, *args, **kwargs):
+    return ('f2', c, a, b, args, tuple(sorted(kwargs.items())))
+
+def ha(u, v=1):
+    return ('ha', u, v)
+
+def hb(*, w=0):
+    return ('hb', w)
+
 class Base(object):
     #EQ#
     def t(self, p, q=3):
@@ -43,7 +52,7 @@ class K(Base):
     @specifiers.forwards_to_method('t')
     def __call__(self, a, *args, **kwargs):
         return ('call', self, a, self.t(*args, **kwargs))
-    def m(self, a, b=0, c=1, *args, **kwargs):
+#MDECO#    def m(self, a, b=0, c=1, *args, **kwargs):
         return ('m', self, a, b, c, args, tuple(sorted(kwargs.items())))
     @specifiers.forwards_to_method('t')
     def fm(self, a, *args, **kwargs):
@@ -61,15 +70,46 @@ class K(Base):
     def fe(self, a, *args, **kwargs):
         return ('fe', self, a, self.t(*args, **kwargs))
 
+    @d1
+    @classmethod
+    def dcm(cls, x, y=1):
+        return ('dcm', cls, x, y)
+    @d2
+    @classmethod
+    def wcm(cls, x, y=1):
+        return ('wcm', cls, x, y)
+    @specifiers.forwards_to_method('h')
+    def fh(self, a, *args, **kwargs):
+        return ('fh', self, a, self.h(*args, **kwargs))
+    @specifiers.forwards_to_method('h', emulate=True)
+    def feh(self, a, *args, **kwargs):
+        return ('feh', self, a, self.h(*args, **kwargs))
+
 class Sub(K):
     pass
+
+class KH(K):
+    @specifiers.forwards_to_method('h')
+    def __call__(self, a, *args, **kwargs):
+        return ('callh', self, a, self.h(*args, **kwargs))
 '''
 
 EQ_CODE = ('def __eq__(self, other):\n        return type(self) is type(other)\n'
            '    def __hash__(self):\n        return 7')
 
-ATTRS = ['m', 'fm', 'fmm', 'dm', 'wm', 'fe', 'plain', '<self>']
-INST_CLASSES = ['K', 'K', 'Sub']
+ATTRS = ['m', 'fm', 'fmm', 'dm', 'wm', 'fe', 'plain', '<self>', 'fh', 'feh', 'dcm', 'wcm']
+ATTR_W = [5, 2, 2, 1, 1, 1, 1, 2, 2, 2, 1, 1]
+OWNER_BOUND = ('dcm', 'wcm')      # classmethods under a wrapper: what they are bound to is the owner
+INST_CLASSES = ['K', 'K', 'Sub', 'KH']
+NINST = len(INST_CLASSES)
+H_VALUES = ['ha', 'hb']      # what `attach` stores on an instance as attribute h
+
+# decoration applied to K.m in the class body itself (so that __set_name__ and class creation
+# see the decorated member), innermost first; later re-decoration goes on top by assignment
+INIT_STACKS = [
+    (), (), ('kwoargs(c)',), ('autokwoargs',), ('annotate(a)',), ('kwoargs(start=b)',),
+    ('annotate(R,c)', 'kwoargs(b)'), ('kwoargs(c)', 'annotate(a)'),
+]
 
 # modifier atoms (disjoint annotation targets so that the *set* determines the result)
 ATOMS = [
@@ -82,6 +122,9 @@ ATOMS = [
     ('autokwoargs(exc b)', 'modifiers.autokwoargs(exceptions=("b",))'),
     ('posoargs(a)', 'modifiers.posoargs("a")'),
     ('posoargs(end=a)', 'modifiers.posoargs(end="a")'),
+    ('posoargs(end=c)', 'modifiers.posoargs(end="c")'),
+    ('kwoargs(a)', 'modifiers.kwoargs("a")'),
+    ('kwoargs(start=c)', 'modifiers.kwoargs(start="c")'),
 ]
 ATOM_EXPR = dict(ATOMS)
 ATOM_NAMES = [a for a, _ in ATOMS]
@@ -116,17 +159,48 @@ def _retrieve(how, obj):
 class Env(object):
     """A world plus instances; used for both the history and the twins."""
 
-    def __init__(self, eq_mode=0):
+    def __init__(self, eq_mode=0, init_m=(), role='twin', share_decos=False):
         self.eq_mode = eq_mode
-        src = SOURCE.replace('#EQ#', EQ_CODE if eq_mode else 'pass')
+        self.init_m = tuple(init_m)
+        mdeco = ''.join('    @{0}\n'.format(ATOM_EXPR[a]) for a in reversed(self.init_m))
+        src = SOURCE.replace('#EQ#', EQ_CODE if eq_mode else 'pass').replace('#MDECO#', mdeco)
         spec = dict(template='c18', params={}, source=src, subjects={})
-        self.w = worlds.build(spec, shared_code_key='c18-eq{0}'.format(eq_mode))
+        # the world a history runs in never shares code objects with the twins it is compared to
+        self.w = worlds.build(spec, shared_code_key='c18-{0}-eq{1}-{2}'.format(
+            role, eq_mode, INIT_STACKS.index(self.init_m) if self.init_m in INIT_STACKS else repr(self.init_m)))
         self.ns = self.w.ns
-        self.insts = [None, None, None]
-        self.applied = {'m': [], 'f': []}
+        self.insts = [None] * NINST
+        self.hstate = [None] * NINST
+        self.applied = {'m': list(self.init_m), 'f': [], 'f2': []}
+        self.share_decos = share_decos
+        self.decos = {}
+
+    def state(self):
+        """What a history-free twin has to reproduce: the decoration state."""
+        n = len(self.init_m)
+        return (self.init_m, tuple(self.applied['m'][n:]), tuple(self.applied['f']), tuple(self.applied['f2']))
 
     def new_instance(self, i):
         self.insts[i] = self.ns[INST_CLASSES[i]]()
+        self.hstate[i] = None
+
+    def attach(self, i, v):
+        setattr(self.insts[i], 'h', self.ns[H_VALUES[v]])
+        self.hstate[i] = v
+
+    def detach(self, i):
+        delattr(self.insts[i], 'h')
+        self.hstate[i] = None
+
+    def deco(self, atom):
+        """The decorator object for an atom: built afresh for every application, or -- when the
+        run shares decorators -- one object applied over and over, as in `kw = kwoargs(...)`."""
+        if not self.share_decos:
+            return eval(ATOM_EXPR[atom], self.ns)
+        d = self.decos.get(atom)
+        if d is None:
+            d = self.decos[atom] = eval(ATOM_EXPR[atom], self.ns)
+        return d
 
     def names(self):
         n = dict((id(o), nm) for nm, o in snapshot.closure(self.w))
@@ -137,13 +211,13 @@ class Env(object):
 
     def redecorate(self, which, atom):
         """Apply one more modifier to K.m / f.  Raises ValueError when inadmissible."""
-        deco = eval(ATOM_EXPR[atom], self.ns)
+        deco = self.deco(atom)
         if which == 'm':
             K = self.ns['K']
             new = deco(K.__dict__['m'])
             K.m = new
         else:
-            self.ns['f'] = deco(self.ns['f'])
+            self.ns[which] = deco(self.ns[which])
         self.applied[which].append(atom)
 
     def target(self, tdesc):
@@ -169,10 +243,13 @@ class Env(object):
             return getattr(self.ns[owner], attr), None
         if kind == 'func':
             return self.ns['f'], None
+        if kind == 'func2':
+            return self.ns['f2'], None
         raise KeyError(kind)
 
     def teardown(self):
-        self.insts = [None, None, None]
+        self.insts = [None] * NINST
+        self.decos.clear()
         self.w.teardown()
 
 
@@ -183,6 +260,8 @@ def norm_ret(v, inst):
         return tuple(norm_ret(x, inst) for x in v)
     if isinstance(v, (int, str, float, type(None))):
         return v
+    if isinstance(v, type):
+        return 'CLS:' + v.__name__
     if inst is not None and v is inst:
         return 'SELF'
     return 'WRONG-INSTANCE:' + type(v).__name__
@@ -200,7 +279,7 @@ def do_op(env, op, tdesc, extra, obj=None, inst=None):
         return snapshot.outcome(lambda: _retrieve(extra, obj), names)
     if op == 'call':
         args, kwargs = CALL_SHAPES[extra]
-        if tdesc[0] == 'class':
+        if tdesc[0] == 'class' and tdesc[2] not in OWNER_BOUND:
             # unbound: pass a fresh instance of the owner explicitly
             inst = env.ns[tdesc[1]]()
             args = (inst,) + tuple(args)
@@ -215,58 +294,71 @@ def do_op(env, op, tdesc, extra, obj=None, inst=None):
 _TWIN = {}
 
 
-def twin_outcome(m_atoms, f_atoms, op, tdesc, extra, eq_mode=0):
+def twin_outcome(state, op, tdesc, extra, eq_mode=0, h=None):
     """First-time outcome on a freshly compiled world in the same decoration
-    state (atoms applied in the given order before anything is bound)."""
+    state (same class-body decoration, later atoms applied in the given order with fresh
+    decorator objects before anything is bound), on a fresh instance carrying the same `h`."""
+    init_m, m_atoms, f_atoms, f2_atoms = state
     ttd = tdesc
     if tdesc[0] == 'inst':
         ttd = ('inst', tdesc[1], tdesc[2], tdesc[3])
-    key = (tuple(m_atoms), tuple(f_atoms), op, ttd, extra, eq_mode)
+    key = (state, op, ttd, extra, eq_mode, h)
     r = _TWIN.get(key)
     if r is not None:
         return r
     if len(_TWIN) > 50000:
         _TWIN.clear()
-    env = Env(eq_mode)
+    from sim import sutstate
+    iso = sutstate.isolated()
+    iso.__enter__()
+    env = Env(eq_mode, init_m)
     try:
         try:
             for a in m_atoms:
                 env.redecorate('m', a)
             for a in f_atoms:
                 env.redecorate('f', a)
+            for a in f2_atoms:
+                env.redecorate('f2', a)
         except ValueError:
             r = ('inadmissible',)
         else:
             if tdesc[0] == 'inst':
                 env.new_instance(tdesc[1])
+                if h is not None:
+                    env.attach(tdesc[1], h)
             r = do_op(env, op, ttd, extra)
     finally:
         env.teardown()
+        iso.__exit__()
     _TWIN[key] = r
     return r
 
 
-def full_view(m_atoms, f_atoms, which):
-    """Everything observable about the attribute in a given decoration order:
-    signatures (class- and instance-level, sigtools and inspect) and call
-    behaviour over all call shapes -- one fresh world per order, the same fixed
-    sequence of observations in every order."""
-    key = ('view', tuple(m_atoms), tuple(f_atoms), which)
+def full_view(atoms, which):
+    """Everything observable about the attribute when `atoms` are applied in this order to the
+    undecorated definition: signatures (class- and instance-level, sigtools and inspect) and
+    call behaviour over all call shapes -- one fresh world per order, the same fixed sequence of
+    observations in every order."""
+    key = ('view', tuple(atoms), which)
     r = _TWIN.get(key)
     if r is not None:
         return r
     out = []
     if which == 'm':
         targets = [('class', 'K', 'm'), ('inst', 0, 'm', 'getattr'), ('inst', 2, 'm', 'getattr')]
-    else:
+    elif which == 'f':
         targets = [('func',)]
+    else:
+        targets = [('func2',)]
+    from sim import sutstate
+    iso = sutstate.isolated()
+    iso.__enter__()
     env = Env()
     try:
         try:
-            for a in m_atoms:
-                env.redecorate('m', a)
-            for a in f_atoms:
-                env.redecorate('f', a)
+            for a in atoms:
+                env.redecorate(which, a)
         except ValueError:
             out = ('inadmissible',)
         else:
@@ -283,6 +375,7 @@ def full_view(m_atoms, f_atoms, which):
             out = tuple(out)
     finally:
         env.teardown()
+        iso.__exit__()
     if len(_TWIN) > 50000:
         _TWIN.clear()
     _TWIN[key] = out
@@ -357,7 +450,13 @@ class C18Hist(object):
         eq_mode = 1 if ch.chance(1, 4, 'value-equal-instances') else 0
         if eq_mode:
             res.counters['runs_with_value_equal_instances'] += 1
-        env = Env(eq_mode)
+        init_m = INIT_STACKS[ch.draw(len(INIT_STACKS), 'class-body-decoration')]
+        share = ch.chance(1, 2, 'shared-decorator-objects')
+        if init_m:
+            res.counters['runs_with_class_body_decoration'] += 1
+        if share:
+            res.counters['runs_sharing_decorator_objects'] += 1
+        env = Env(eq_mode, init_m, role='hist', share_decos=share)
         try:
             self._run(ch, cfg, res, env)
         finally:
@@ -366,13 +465,13 @@ class C18Hist(object):
         return res
 
     def _run(self, ch, cfg, res, env):
-        for i in range(3):
+        for i in range(NINST):
             env.new_instance(i)
         slots = []                  # [obj, inst index, tdesc, version]
         version = [0]
         trace = []
         hist_abs = []
-        touched = [set(), set(), set()]     # attrs accessed per instance (for the leak report)
+        touched = [set() for _ in range(NINST)]     # attrs accessed per instance (for the leak report)
         bound_before = [False]
 
         def viol(clause, symptom, detail):
@@ -381,10 +480,11 @@ class C18Hist(object):
 
         # swarm: every run has a focus (attribute, instance) most accesses go to, and its own
         # operation mix, so that access -> change -> access-again patterns are common
-        focus_attr = ATTRS[ch.weighted([6, 2, 2, 1, 1, 1, 1, 2], 'focus-attr')]
-        focus_inst = ch.draw(3, 'focus-inst')
-        op_weights = [[4, 3, 3, 3, 1, 2, 1, 1], [4, 1, 2, 6, 0, 1, 0, 0], [3, 4, 3, 1, 2, 4, 1, 2],
-                      [5, 2, 5, 2, 1, 1, 1, 1]][ch.draw(4, 'op-mix')]
+        focus_attr = ATTRS[ch.weighted([6, 2, 2, 1, 1, 1, 1, 2, 2, 2, 1, 1], 'focus-attr')]
+        focus_inst = ch.draw(NINST, 'focus-inst')
+        # retrieve bind call redecorate drop_slot drop_instance gc new_instance attach detach copy_instance
+        op_weights = [[4, 3, 3, 3, 1, 2, 1, 1, 1, 1, 1], [4, 1, 2, 6, 0, 1, 0, 0, 1, 0, 0],
+                      [3, 4, 3, 1, 2, 4, 1, 2, 1, 1, 1], [5, 2, 5, 2, 1, 1, 1, 1, 3, 1, 2]][ch.draw(4, 'op-mix')]
 
         def draw_target():
             if env.insts[focus_inst] is not None and ch.chance(2, 3, 'use-focus'):
@@ -392,18 +492,18 @@ class C18Hist(object):
                 return ('inst', focus_inst, focus_attr, via)
             k = ch.weighted([5, 2, 1], 'target-kind')
             if k == 0:
-                live = [i for i in range(3) if env.insts[i] is not None]
+                live = [i for i in range(NINST) if env.insts[i] is not None]
                 if not live:
                     return None
                 i = live[ch.draw(len(live), 'instance')]
-                attr = ATTRS[ch.weighted([5, 2, 2, 1, 1, 1, 1, 2], 'attr')]
+                attr = ATTRS[ch.weighted(ATTR_W, 'attr')]
                 via = ['getattr', 'getattr', 'get:K', 'get:own'][ch.draw(4, 'via')]
                 return ('inst', i, attr, via)
             if k == 1:
-                owner = ['K', 'Sub'][ch.draw(2, 'owner')]
-                attr = ATTRS[ch.weighted([5, 2, 2, 1, 1, 1, 1, 2], 'attr')]
+                owner = ['K', 'Sub', 'KH'][ch.draw(3, 'owner')]
+                attr = ATTRS[ch.weighted(ATTR_W, 'attr')]
                 return ('class', owner, attr)
-            return ('func',)
+            return ('func',) if ch.chance(1, 2, 'which-function') else ('func2',)
 
         nops = 1 + ch.draw(cfg.get('hist_len', 6), 'n-ops')
 
@@ -411,7 +511,8 @@ class C18Hist(object):
             # every operation runs in its own frame: no local of the history loop may
             # keep an instance or a bound object alive behind the harness's back
             opk = ch.weighted(op_weights, 'op')
-            opname = ['retrieve', 'bind', 'call', 'redecorate', 'drop_slot', 'drop_instance', 'gc', 'new_instance'][opk]
+            opname = ['retrieve', 'bind', 'call', 'redecorate', 'drop_slot', 'drop_instance', 'gc', 'new_instance',
+                      'attach', 'detach', 'copy_instance'][opk]
             res.steps += 1
             if opname in ('retrieve', 'call'):
                 use_slot = slots and ch.chance(1, 4, 'use-slot')
@@ -438,7 +539,8 @@ class C18Hist(object):
                 if use_slot and ver != version[0]:
                     res.counters['stale_slot_comparison_skipped'] += 1
                     return False
-                exp = twin_outcome(env.applied['m'], env.applied['f'], opname, td, extra, env.eq_mode)
+                exp = twin_outcome(env.state(), opname, td, extra, env.eq_mode,
+                                   env.hstate[td[1]] if td[0] == 'inst' else None)
                 res.event(step, opname, td, extra, snapshot.freeze(got))
                 if snapshot.freeze(got) != snapshot.freeze(exp):
                     if opname == 'call' and 'WRONG-INSTANCE' in repr(got):
@@ -459,7 +561,8 @@ class C18Hist(object):
                 try:
                     obj, inst = env.target(td)
                 except Exception as e:
-                    exp = twin_outcome(env.applied['m'], env.applied['f'], 'retrieve', td, HOWS[0], env.eq_mode)
+                    exp = twin_outcome(env.state(), 'retrieve', td, HOWS[0], env.eq_mode,
+                                       env.hstate[td[1]] if td[0] == 'inst' else None)
                     trace.append('bind({0}) raised {1}'.format(td, type(e).__name__))
                     if exp[0] != 'bind-exc':
                         viol('H2', 'binding raises only after this history',
@@ -484,9 +587,16 @@ class C18Hist(object):
                     slots.append([obj, td[1] if td[0] == 'inst' else None, td, version[0]])
                 del obj, inst
             elif opname == 'redecorate':
-                which = 'm' if ch.chance(5, 6, 'which') else 'f'
-                atom = ATOM_NAMES[ch.draw(len(ATOM_NAMES), 'atom')]
-                before_m, before_f = list(env.applied['m']), list(env.applied['f'])
+                if env.share_decos and env.decos and ch.chance(2, 3, 'reuse-decorator'):
+                    # swarm: the decorator object used before, now on one of the other functions
+                    used = sorted(env.decos)
+                    atom = used[ch.draw(len(used), 'used-atom')]
+                    which = ['m', 'f', 'f2'][ch.draw(3, 'which')]
+                    res.counters['probe:decorator_object_reused'] += 1
+                else:
+                    which = ['m', 'm', 'm', 'm', 'f', 'f2'][ch.draw(6, 'which')]
+                    atom = ATOM_NAMES[ch.draw(len(ATOM_NAMES), 'atom')]
+                before = env.state()
                 trace.append('redecorate({0}, {1})'.format(which, atom))
                 hist_abs.append(('redecorate', which, atom, False))
                 try:
@@ -497,23 +607,41 @@ class C18Hist(object):
                     trace[-1] += ' -> ValueError'
                 res.evals += 1
                 res.counters['redecorate_' + ('applied' if ok else 'inadmissible')] += 1
+                view_td = {'m': ('class', 'K', 'm'), 'f': ('func',), 'f2': ('func2',)}[which]
                 if ok:
                     version[0] += 1
                     if bound_before[0]:
                         res.counters['probe:redecorate_after_bind'] += 1
+                    # the other function must not have been affected by this application (a decorator
+                    # object applied to several functions carries nothing over)
+                    for ow, otd in (('f', ('func',)), ('f2', ('func2',)), ('m', ('class', 'K', 'm'))):
+                        if ow == which:
+                            continue
+                        got = do_op(env, 'retrieve', otd, HOWS[0])
+                        exp = twin_outcome(env.state(), 'retrieve', otd, HOWS[0], env.eq_mode)
+                        if snapshot.freeze(got) != snapshot.freeze(exp):
+                            viol('H2', 'decorating {0} changed {1}'.format(which, ow),
+                                 'after {0}: {1} is {2}, history-free twin {3}'.format(trace[-1], ow, _short(got), _short(exp)))
+                            return True
+                    # H2 at once for the decorated attribute itself (class-level view)
+                    got = do_op(env, 'retrieve', view_td, HOWS[0])
+                    exp = twin_outcome(env.state(), 'retrieve', view_td, HOWS[0], env.eq_mode)
+                    if snapshot.freeze(got) != snapshot.freeze(exp):
+                        viol('H2', 'signature of {0} differs from the history-free twin'.format(which),
+                             'right after {0}: got {1}, twin {2}'.format(trace[-1], _short(got), _short(exp)))
+                        return True
                     # H1: any other admissible order of the same modifier set gives the same view
                     cur = env.applied[which]
                     uniq = []
                     for a in cur:
                         if a not in uniq:
                             uniq.append(a)
-                    m_at = lambda seq: (seq, before_f) if which == 'm' else (before_m, seq)   # noqa
-                    base = full_view(*(m_at(tuple(cur)) + (which,)))
+                    base = full_view(tuple(cur), which)
                     tried = 0
                     for perm in itertools.permutations(sorted(uniq)):
                         if list(perm) == uniq or tried >= cfg.get('max_perms', 4):
                             return False
-                        other = full_view(*(m_at(tuple(perm)) + (which,)))
+                        other = full_view(tuple(perm), which)
                         tried += 1
                         if other == ('inadmissible',):
                             res.counters['order_inadmissible'] += 1
@@ -527,13 +655,12 @@ class C18Hist(object):
                             return True
                 else:
                     # an inadmissible step must leave the attribute as it was
-                    for td in ([('class', 'K', 'm')] if which == 'm' else [('func',)]):
-                        got = do_op(env, 'retrieve', td, HOWS[0])
-                        exp = twin_outcome(before_m, before_f, 'retrieve', td, HOWS[0])
-                        if snapshot.freeze(got) != snapshot.freeze(exp):
-                            viol('H1', 'inadmissible modifier application changed the attribute',
-                                 '{0} {1}: got {2} expected {3}'.format(which, atom, _short(got), _short(exp)))
-                            return True
+                    got = do_op(env, 'retrieve', view_td, HOWS[0])
+                    exp = twin_outcome(before, 'retrieve', view_td, HOWS[0], env.eq_mode)
+                    if snapshot.freeze(got) != snapshot.freeze(exp):
+                        viol('H1', 'inadmissible modifier application changed the attribute',
+                             '{0} {1}: got {2} expected {3}'.format(which, atom, _short(got), _short(exp)))
+                        return True
             elif opname == 'drop_slot':
                 if slots:
                     j = ch.draw(len(slots), 'slot')
@@ -546,15 +673,44 @@ class C18Hist(object):
                 trace.append('gc({0})'.format(gen))
                 hist_abs.append(('gc', gen, '', False))
             elif opname == 'new_instance':
-                free = [i for i in range(3) if env.insts[i] is None]
+                free = [i for i in range(NINST) if env.insts[i] is None]
                 if free:
                     i = free[ch.draw(len(free), 'free-instance')]
                     env.new_instance(i)
                     touched[i] = set()
                     trace.append('new_instance({0})'.format(i))
                     hist_abs.append(('new_instance', INST_CLASSES[i], '', False))
+            elif opname == 'attach':
+                live = [i for i in range(NINST) if env.insts[i] is not None]
+                if not live:
+                    return False
+                i = focus_inst if (env.insts[focus_inst] is not None and ch.chance(1, 2, 'use-focus')) \
+                    else live[ch.draw(len(live), 'instance')]
+                v = ch.draw(len(H_VALUES), 'h-value')
+                env.attach(i, v)
+                trace.append('attach({0}, {1})'.format(i, H_VALUES[v]))
+                hist_abs.append(('attach', INST_CLASSES[i], v, False))
+            elif opname == 'detach':
+                have = [i for i in range(NINST) if env.insts[i] is not None and env.hstate[i] is not None]
+                if have:
+                    i = have[ch.draw(len(have), 'instance')]
+                    env.detach(i)
+                    trace.append('detach({0})'.format(i))
+                    hist_abs.append(('detach', INST_CLASSES[i], '', False))
+            elif opname == 'copy_instance':
+                # positions 0 and 1 hold the same class: copy.copy() one into the other when free
+                pairs = [(a, b) for a, b in ((0, 1), (1, 0)) if env.insts[a] is not None and env.insts[b] is None]
+                if pairs:
+                    import copy
+                    a, b = pairs[ch.draw(len(pairs), 'copy-pair')]
+                    env.insts[b] = copy.copy(env.insts[a])
+                    env.hstate[b] = env.hstate[a]
+                    touched[b] = set()
+                    res.counters['probe:instance_copied_after_access' if touched[a] else 'instance_copied'] += 1
+                    trace.append('copy_instance({0} -> {1})'.format(a, b))
+                    hist_abs.append(('copy_instance', bool(touched[a]), '', False))
             elif opname == 'drop_instance':
-                live = [i for i in range(3) if env.insts[i] is not None]
+                live = [i for i in range(NINST) if env.insts[i] is not None]
                 if not live:
                     return False
                 i = live[ch.draw(len(live), 'instance')]
@@ -596,9 +752,12 @@ class C18Hist(object):
                              i, INST_CLASSES[i], sorted(touched[i]), n))
                 else:
                     path = retention_path(wr, [id(slots), id(env.insts), id(touched)])
-                    viol('H4', 'instance kept alive via ' + path,
+                    # the path goes into the detail only: referrer chains depend on what else the
+                    # process holds, and a violation class must reproduce exactly
+                    viol('H4', 'instance kept alive by something other than the bound-wrapper caches',
                          'instance {0} ({1}) touched={2} survives drop + gc.collect() (bound-wrapper caches '
-                         'emptied: {3} entries)'.format(i, INST_CLASSES[i], sorted(touched[i]), n))
+                         'emptied: {3} entries); referrer chain: {4}'.format(
+                             i, INST_CLASSES[i], sorted(touched[i]), n, path))
                 # the history goes on: a leak does not invalidate later comparisons
 
             return False
@@ -606,9 +765,11 @@ class C18Hist(object):
         for step in range(nops):
             if one_step(step):
                 return
-        res.key('hist', tuple(env.applied['m']), tuple(env.applied['f']), tuple(hist_abs),
+        res.key('hist', env.state(), tuple(hist_abs),
                 nontrivial=_nontrivial(hist_abs))
-        res.sample = dict(history=trace, applied_m=list(env.applied['m']), applied_f=list(env.applied['f']))
+        res.sample = dict(history=trace, class_body_decoration=list(env.init_m), applied_m=list(env.applied['m']),
+                          applied_f=list(env.applied['f']), applied_f2=list(env.applied['f2']),
+                          shared_decorator_objects=env.share_decos)
 
     def describe(self, choices, cfg):
         from sim.runner import run_one
@@ -623,7 +784,7 @@ def _clear_insts_caches(env):
     n = 0
     seen = set()
     stack = []
-    for cname in ('K', 'Sub', 'Base'):
+    for cname in ('K', 'Sub', 'KH', 'Base'):
         stack.extend(env.ns[cname].__dict__.values())
     while stack and len(seen) < 200:
         v = stack.pop()
